@@ -10,13 +10,39 @@ from vlib import simworld as S
 from vlib import model, tlc
 
 REPLAY = os.path.join(tlc.SPECS, "pool", "ReplayFunctorPool.tla")
+FREPLAY = os.path.join(tlc.SPECS, "pool", "ReplayFactoryFunctorPool.tla")
+FMC1 = os.path.join(tlc.SPECS, "pool", "MC_FactoryFunctorPool.tla")
 MC = os.path.join(tlc.SPECS, "pool", "MC_FunctorPool.tla")
 _ACT = re.compile(r'^/\\ act = <<(-?\d+), "(\w+)">>')
 _KIND = None
 
 
-def kinds():
+def kinds(factory=False):
     """KindOf from the model text (label -> visible-operation kind)"""
+    global _KIND
+    if factory:
+        return _kinds_of("FactoryFunctorPool.tla")
+    if _KIND is None:
+        _KIND = _kinds_of("FunctorPool.tla")
+    return _KIND
+
+
+_KCACHE = {}
+
+
+def _kinds_of(fname):
+    if fname not in _KCACHE:
+        text = open(os.path.join(tlc.SPECS, "pool", fname)).read()
+        body = text[text.index("KindOf(l) =="):]
+        out = {}
+        for m in re.finditer(r'l \\in \{([^}]*)\} -> "([\w.\-]+)"', body):
+            for lab in re.findall(r'"(\w+)"', m.group(1)):
+                out[lab] = m.group(2)
+        _KCACHE[fname] = out
+    return _KCACHE[fname]
+
+
+def _unused_kinds():
     global _KIND
     if _KIND is None:
         text = open(os.path.join(tlc.SPECS, "pool", "FunctorPool.tla")).read()
@@ -35,12 +61,12 @@ def model_consts(scen, calls_name):
     return {"Calls": "<-" + calls_name, "NW": scen["nw"], "WorkCap": wq or 0, "ResCap": scen.get("rq") or 0, "Design": '"fixed"'}
 
 
-def simulate(consts, num, depth, seed, ctx, name):
+def simulate(consts, num, depth, seed, ctx, name, replay_module=None):
     """TLC -simulate: returns a list of behaviours, each a list of (actor, label)."""
     wd = tlc.newdir("sim_" + name)
     try:
         cfg = model.cfg_text(consts, spec="SpecA")
-        res = tlc.run(REPLAY, cfg, tag="simrun_" + name, workers=1, timeout=600, extra_text={"traces.json": "[]"},
+        res = tlc.run(replay_module or REPLAY, cfg, tag="simrun_" + name, workers=1, timeout=600, extra_text={"traces.json": "[]"},
                       simulate="file=%s/tr,num=%d" % (wd, num), depth=depth, seed=seed)
         ctx.add_tlc("simulate:" + name, res, count=False)
         out = []
@@ -61,24 +87,28 @@ def simulate(consts, num, depth, seed, ctx, name):
         shutil.rmtree(wd, ignore_errors=True)
 
 
-def role_of(actor, label, feeder_calls):
+def role_of(actor, label, feeder_calls, repl_calls=None):
     if actor == 0:
         return "main"
     if actor == 100:
         if label == "FWait":
             feeder_calls[0] += 1
         return ("feeder", max(1, feeder_calls[0]))
+    if actor == 200:
+        if label == "RWait":
+            repl_calls[0] += 1
+        return ("thread", "ReplaceWorkerThread", max(1, repl_calls[0]))
     return ("worker", actor)
 
 
-def replay(h, scen, beh):
+def replay(h, scen, beh, factory=False):
     """Drive the real code along a model behaviour; compare the kind of every visible operation."""
-    fc = [0]
-    script = [role_of(a, lab, fc) for a, lab in beh]
+    fc, rc = [0], [0]
+    script = [role_of(a, lab, fc, rc) for a, lab in beh]
     w = S.World(S.role_chooser(script), shared_names=h.shared)
     w.run(h.main_fn(scen))
     div = getattr(w, "script_diverged", None)
-    k = kinds()
+    k = kinds(factory)
     mismatch = None
     n = len(beh) if div is None else div[0]
     for j in range(n):
@@ -99,20 +129,22 @@ def step_trace(w):
             a = 0
         elif chosen in procs:
             a = procs.index(chosen) + 1
+        elif "ReplaceWorkerThread" in chosen:
+            a = 200
         else:
             a = 100
         out.append({"a": a, "k": w.step_ops.get(j + 1, "task-start")})
     return out
 
 
-def validate_steps(consts, traces, ctx, name, timeout=900):
+def validate_steps(consts, traces, ctx, name, timeout=900, replay_module=None):
     cfg = "SPECIFICATION TSpec\nCONSTANTS\n%s\nCONSTRAINT Progress\nPOSTCONDITION Accepted\nCHECK_DEADLOCK FALSE\n" % model.constants_block(consts)
     results = {}
 
     def on_print(tag, payload):
         parts = [p.strip() for p in payload.split(",")]
         results[int(parts[0])] = (int(parts[1]), int(parts[2]))
-    res = tlc.run(REPLAY, cfg, tag="conf_" + name, workers=1, timeout=timeout, dfs=True, extra_text={"traces.json": json.dumps(traces)},
+    res = tlc.run(replay_module or REPLAY, cfg, tag="conf_" + name, workers=1, timeout=timeout, dfs=True, extra_text={"traces.json": json.dumps(traces)},
                   print_tags=("RESULT",), on_print=on_print)
     ctx.add_tlc("conformance:" + name, res)
     if len(results) != len(traces):
@@ -199,3 +231,48 @@ def factory_design_legs(ctx, quick, invariants, neg_design, neg_invariants):
     res = model.mc(FMC, known, ctx, "FactoryPool_known_finding_wq_below_workers", invariants=["NoDeadlock"], view=None, workers=16,
                    expect_violation=True)
     ctx.extra["model_exhibits_open_known_finding"] = {"config": "2 workers, quota 1, WorkCap 1", "violated": res.violated}
+
+
+def factory_conformance(ctx, h, rnd, quick, judge):
+    """FactoryFunctorPool.tla (one label per visible operation, with quota / retirement / replace thread): exhaustive TLC runs and
+    step-level conformance of the real FactoryFunctorPool in both directions."""
+    import random as _r
+    configs = [("C2", 1, 4, 1, 0, 1), ("C2", 1, 3, 1, 0, 2)] if quick else \
+              [("C2", 1, 4, 1, 0, 1), ("C2", 1, 3, 1, 0, 2), ("C21", 2, 6, 2, 0, 1), ("C222", 1, 5, 1, 0, 2), ("C3", 2, 6, 2, 1, 1)]
+    n = 25 if quick else 200
+    conf = {"spec_to_code": {"behaviours": 0, "followed": 0, "steps": 0, "first_divergence": None},
+            "code_to_spec": {"executions": 0, "accepted": 0, "steps": 0, "first_rejection": None}}
+    for calls, nw, maxwid, wq, rq, quota in configs:
+        consts = {"Calls": "<-" + calls, "Quota": quota, "MaxWid": maxwid, "NW": nw, "WorkCap": wq, "ResCap": rq, "Design": '"fixed"'}
+        name = "FactoryFunctorPool_%s_w%d_q%d_r%d_k%d" % (calls, nw, wq, rq, quota)
+        model.mc(FMC1, consts, ctx, name, invariants=["CallOK", "NoBad", "NoDeadlock", "NoLeftovers", "QuotaKept", "NoneLeftRunning", "WidBound"],
+                 view=None, workers=16, timeout=2400)
+        if h is None:
+            continue
+        scen = scen_for(calls, nw, wq, rq, judge)
+        scen.update(pool="factory", quota=quota)
+        behs = simulate(consts, n, 600, rnd.randint(1, 10 ** 6), ctx, name, replay_module=FREPLAY)
+        for b in behs:
+            w, div, mis = replay(h, scen, b, factory=True)
+            conf["spec_to_code"]["behaviours"] += 1
+            conf["spec_to_code"]["steps"] += len(b)
+            if div is None and mis is None and w.outcome == "ok":
+                conf["spec_to_code"]["followed"] += 1
+            elif conf["spec_to_code"]["first_divergence"] is None:
+                conf["spec_to_code"]["first_divergence"] = {"config": name, "diverged": div, "mismatch": mis, "outcome": w.outcome}
+        worlds = [h.execute(scen, S.random_chooser(_r.Random(rnd.random()))) for _ in range(n)]
+        worlds = [w for w in worlds if w.outcome == "ok"]
+        traces = [step_trace(w) for w in worlds]
+        for w, tr, (m, t) in zip(worlds, traces, validate_steps(consts, traces, ctx, name, replay_module=FREPLAY)):
+            conf["code_to_spec"]["executions"] += 1
+            conf["code_to_spec"]["steps"] += t
+            if m == t:
+                conf["code_to_spec"]["accepted"] += 1
+            elif conf["code_to_spec"]["first_rejection"] is None:
+                conf["code_to_spec"]["first_rejection"] = {"config": name, "matched": m, "of": t, "step": tr[m], "schedule": w.schedule[:m + 2]}
+    a, b = conf["spec_to_code"], conf["code_to_spec"]
+    conf["status"] = "not-run" if h is None else ("bound" if a["followed"] == a["behaviours"] and b["accepted"] == b["executions"] else "diverged")
+    ctx.extra["conformance_with_FactoryFunctorPool_tla"] = conf
+    if conf["status"] == "diverged":
+        ctx.note("conformance with FactoryFunctorPool.tla is lost (not a violation by itself): %s" % json.dumps(conf)[:600])
+    return conf
